@@ -21,6 +21,7 @@ type frontier struct {
 }
 
 type searcher struct {
+	natFinalWL    string // the WatchList taken at final quiescence disagrees with the model run in natural order
 	wr            *WatcherRec
 	calls         []*APICall
 	L             []sinot.Record
@@ -358,7 +359,10 @@ func (s *searcher) natural() []MEvent {
 				out = append(out, e)
 			}
 		} else {
-			m.Apply(s.calls[it.idx], s.closeOv[it.idx])
+			res := m.Apply(s.calls[it.idx], s.closeOv[it.idx])
+			if c := s.calls[it.idx]; c.Kind == OpWatchList && c.Phase == "epilogue" && !res.OK {
+				s.natFinalWL = res.Reason
+			}
 		}
 	}
 	return out
@@ -398,6 +402,11 @@ func (s *searcher) classify() []Violation {
 		return []Violation{{Kind: kind, Watcher: wi, Detail: reasons, Site: site}}
 	}
 	exp := s.natural()
+	if s.natFinalWL != "" {
+		// whatever went wrong with the events, the watch set the Watcher reports once
+		// everything has settled is not the one its history leads to
+		out = append(out, Violation{Kind: "watchlist-mismatch", Watcher: wi, Site: "WatchList", Detail: "at final quiescence: " + s.natFinalWL})
+	}
 	D := s.wr.D
 	cnt := map[string]int{}
 	for _, e := range exp {
